@@ -13,3 +13,5 @@ cd /repo && git checkout -q -- . && git clean -fdq -e /dev/null 2>/dev/null
 echo "$out" | grep -E "^(property=|VIOLATION|INCONCLUSIVE|KNOWN-FINDING)" | head -8
 echo "$out" | grep -E "^  class=" | sort | uniq -c | head -8
 echo "exit=$rc"
+nv=$(echo "$out" | grep -oE "violations=[0-9]+" | head -1); classes=$(echo "$out" | grep -oE "^  class=[^ ]+" | sort -u | tr -d " " | paste -sd, | cut -c1-200)
+printf "%s\t%s\t%s\tseed=%s\texit=%s\t%s\t%s\n" "$(basename $(dirname $patch))" "$id" "$tier" "${VERIF_SEED:-1}" "$rc" "$nv" "$classes" >> /verif/seeded/results.tsv
